@@ -140,7 +140,20 @@ func hashKey(ev types.Evidence) string  { return string(ev.Hash()) }
 func (h *hist) structOK(ev types.Evidence) (ok bool, why string, known bool) {
 	switch e := ev.(type) {
 	case *types.DuplicateVoteEvidence:
+		// The verdict on an item whose height is decided never changes (the
+		// history is immutable), so the oracle remembers it by the item's bytes.
+		decided := e != nil && e.VoteA != nil && e.VoteB != nil && h.ch.Hist[e.VoteA.Height] != nil
+		var bk string
+		if decided {
+			bk = bytesKey(e)
+			if m, hit := h.dveMemo[bk]; hit {
+				return m.ok, m.name, true
+			}
+		}
 		ok, why = h.refDVE(e)
+		if decided {
+			h.dveMemo[bk] = lcaInfo{ok, why}
+		}
 		return ok, why, true
 	case *types.LightClientAttackEvidence:
 		v, found := h.lcaVerdict[bytesKey(e)]
